@@ -2987,6 +2987,9 @@ def _reorder_var(
         start, end = end, start
     _shift(bdd, level, start, levels)
     sizes = _shift(bdd, start, end, levels)
+    if not sizes:
+        # single variable, no other level to move to
+        return level
     k = min(sizes, key=sizes.get)
     _shift(bdd, end, k, levels)
     m_ = len(bdd)
